@@ -697,7 +697,25 @@ func mutate(c *ctx, data []byte) ([]byte, string) {
 	if len(d) == 0 {
 		return d, "empty"
 	}
-	switch c.r.intn(12) {
+	switch c.r.intn(13) {
+	case 12: // a well-formed array with one member more (null, an empty array, an empty string, an empty map) or one less
+		if parts, ok := topElems(d); ok && len(parts) >= 1 && len(parts) < 22 {
+			if c.r.intn(3) == 0 {
+				return joinElems(parts[:len(parts)-1]), "one-member-less"
+			}
+			extra := pick(c.r, [][]byte{{0xf6}, {0x80}, {0x40}, {0xa0}, {0x81, 0x83, 0x40, 0xa0, 0x40}})
+			out := joinElems(append(append([]cbor.RawMessage{}, parts...), extra))
+			if c.r.bool() && len(data) > 2 && (data[0] == 0xd8 || data[0]&0xe0 == 0xc0) {
+				// keep the tag the message had
+				tl := 1
+				if data[0] == 0xd8 {
+					tl = 2
+				}
+				out = append(append([]byte{}, data[:tl]...), out...)
+			}
+			return out, "one-member-more"
+		}
+		return append(d, 0xf6), "trailing"
 	case 0:
 		pos := mpos(c, len(d))
 		d[pos] ^= 1 << uint(c.r.intn(8))
